@@ -39,6 +39,8 @@ import (
 type c19DBRow struct{ authUUID, scopes, userUUID string }
 type c19DB struct {
 	mu       sync.Mutex
+	failAll  bool            // every query fails (the connection is there, the statement errors out)
+	fail     map[string]bool // queries for these api_token values fail
 	rows     map[string]c19DBRow
 	inserted [][2]string // uuid, secret of created tokens
 	lookups  []string
@@ -82,6 +84,9 @@ func (s *c19Stmt) Query(args []driver.Value) (driver.Rows, error) {
 	defer s.db.mu.Unlock()
 	key := fmt.Sprint(args[0])
 	s.db.lookups = append(s.db.lookups, key)
+	if s.db.failAll || s.db.fail[key] {
+		return nil, errors.New("c19 stub: canceling statement due to statement timeout")
+	}
 	row, ok := s.db.rows[key]
 	return &c19Rows{row: row, have: ok}, nil
 }
@@ -231,10 +236,19 @@ func c19GenReq(r *vRand, remote, path string, extraQuery, extraForm url.Values, 
 		query[k] = append([]string(nil), vs...)
 	}
 	if has("query") {
+		// api_token may be repeated, and a value may be empty (in particular the first one)
+		if r.Chance(1, 3) {
+			query.Add("api_token", "")
+		}
 		query.Add("api_token", tokenFor())
 		if r.Chance(1, 6) {
 			query.Add("api_token", tokenFor())
 		}
+		if r.Chance(1, 8) {
+			query.Add("api_token", "")
+		}
+	} else if r.Chance(1, 12) {
+		query.Add("api_token", "")
 	}
 	form := url.Values{}
 	for k, vs := range extraForm {
@@ -246,7 +260,13 @@ func c19GenReq(r *vRand, remote, path string, extraQuery, extraForm url.Values, 
 		if r.Chance(1, 8) && len(extraForm) == 0 {
 			q.ctype = []string{"application/x-www-form-encoded", "application/x-www-form-urlencoded; charset=UTF-8"}[r.Intn(2)]
 		}
-		form.Set("api_token", tokenFor())
+		if r.Chance(1, 4) {
+			form.Add("api_token", "")
+		}
+		form.Add("api_token", tokenFor())
+		if r.Chance(1, 8) {
+			form.Add("api_token", []string{"", tokenFor()}[r.Intn(2)])
+		}
 		if r.Bool() {
 			form.Set("foo", "bar baz")
 		}
@@ -354,6 +374,16 @@ func c19Handler(rec *c19Recorder, db *c19DB, remotes ...string) *Handler {
 	return h
 }
 
+func c19Recover(f func()) (panicked string) {
+	defer func() {
+		if p := recover(); p != nil {
+			panicked = fmt.Sprint(p)
+		}
+	}()
+	f()
+	return ""
+}
+
 func c19DestOf(host string, remotes []string) string {
 	for _, id := range remotes {
 		if host == c19RemoteHost(id) {
@@ -377,11 +407,26 @@ func c19GenDB(r *vRand, q *c19Req, belongs []string, force bool) (*c19DB, string
 	if !reachable {
 		return nil, "None", nil, "unreachable"
 	}
-	db := &c19DB{rows: map[string]c19DBRow{}}
+	db := &c19DB{rows: map[string]c19DBRow{}, fail: map[string]bool{}}
 	var terms, protect []string
+	if !force && r.Chance(1, 6) {
+		// the handle is there but every query fails: for the model the same as unreachable; the legacy tokens
+		// are tokens of local users the database cannot be asked about
+		db.failAll = true
+		for _, t := range q.legacy {
+			protect = append(protect, t)
+		}
+		return db, "None", protect, "every-query-fails"
+	}
 	for _, t := range q.legacy {
-		if _, dup := db.rows[t]; dup || r.Chance(1, 4) {
+		if _, dup := db.rows[t]; dup || db.fail[t] || r.Chance(1, 4) {
 			continue // not found
+		}
+		if r.Chance(1, 5) { // a local user's token, but this query fails
+			db.fail[t] = true
+			terms = append(terms, fmt.Sprintf("(%s, DbError)", gStr(t)))
+			protect = append(protect, t)
+			continue
 		}
 		user := "aaaaa"
 		if r.Chance(2, 5) {
@@ -394,7 +439,7 @@ func c19GenDB(r *vRand, q *c19Req, belongs []string, force bool) (*c19DB, string
 			protect = append(protect, t)
 		}
 	}
-	return db, "(Some " + gList(terms) + ")", protect, fmt.Sprintf("reachable/%d-known", len(terms))
+	return db, "(Some " + gList(terms) + ")", protect, fmt.Sprintf("reachable/%d-known/%d-failing", len(terms)-len(db.fail), len(db.fail))
 }
 
 func TestVerifC19Legacy(t *testing.T) {
@@ -424,7 +469,11 @@ func TestVerifC19Legacy(t *testing.T) {
 		secrets := append(append([]string(nil), q.secrets...), protect...)
 		rec := &c19Recorder{}
 		h := c19Handler(rec, db, remote, "ccccc")
-		resp, err := h.remoteClusterRequest(remote, q.build())
+		var resp *http.Response
+		var err error
+		if p := c19Recover(func() { resp, err = h.remoteClusterRequest(remote, q.build()) }); p != "" {
+			err = errors.New("panic: " + p)
+		}
 		if resp != nil && resp.Body != nil {
 			resp.Body.Close()
 		}
@@ -434,22 +483,28 @@ func TestVerifC19Legacy(t *testing.T) {
 		var oQuery [][2]string
 		var parts []c19Part
 		if oErr && len(sent) != 0 {
-			t.Fatalf("case %d: remoteClusterRequest failed (%v) after sending %d request(s)", i, err, len(sent))
+			// reported as it is: an error after something was sent still counts as sent for the search
+			oErr = false
 		}
 		if !oErr {
-			if len(sent) != 1 {
-				t.Fatalf("case %d: expected one outgoing request, got %d", i, len(sent))
+			// anything unexpected is reported through the observation (it then disagrees with the model),
+			// never by failing the harness; the search covers every request that was sent
+			for _, s := range sent {
+				parts = append(parts, c19Parts(s)...)
 			}
-			if sent[0].Host != c19RemoteHost(remote) {
-				t.Fatalf("case %d: request for %q went to host %q", i, remote, sent[0].Host)
+			switch {
+			case len(sent) != 1:
+				oAuth = fmt.Sprintf("[%d requests sent]", len(sent))
+			case sent[0].Host != c19RemoteHost(remote):
+				oAuth = "[sent to host " + sent[0].Host + "]"
+			default:
+				oAuth = sent[0].Header.Get("Authorization")
+				if qv, qerr := url.ParseQuery(sent[0].RawQuery); qerr != nil {
+					oQuery = [][2]string{{"[unparseable query]", sent[0].RawQuery}}
+				} else {
+					oQuery = c19Pairs(qv)
+				}
 			}
-			oAuth = sent[0].Header.Get("Authorization")
-			qv, qerr := url.ParseQuery(sent[0].RawQuery)
-			if qerr != nil {
-				t.Fatalf("outgoing query does not parse: %v", qerr)
-			}
-			oQuery = c19Pairs(qv)
-			parts = c19Parts(sent[0])
 		}
 		leaks := c19Leaks(secrets, parts)
 		term := fmt.Sprintf("CLegacy %s %s %s %s %s %s %s %s", q.term, gStr(remote), dbTerm, gStrs(secrets), gBool(oErr), gStr(oAuth), c19PairsTerm(oQuery), c19PartsTerm(parts))
@@ -603,7 +658,8 @@ func c19StackCase(t *testing.T, cs *vCases, i int, r *vRand) {
 	h := c19Handler(rec, db, remotes...)
 	stack := h.setupProxyRemoteCluster(prepend(http.NotFoundHandler(), h.proxyRailsAPI))
 	rw := httptest.NewRecorder()
-	stack.ServeHTTP(rw, q.build())
+	// a panic of the handler ends this request only (as net/http's server does), not the harness
+	panicked := c19Recover(func() { stack.ServeHTTP(rw, q.build()) })
 	all := rec.take()
 	var sentTerms []string
 	var sentDesc []interface{}
@@ -644,11 +700,11 @@ func c19StackCase(t *testing.T, cs *vCases, i int, r *vRand) {
 		dbRows = rows
 	}
 	desc := map[string]interface{}{"index": i, "kind": "legacy stack: " + kind, "placements": q.places, "content_type": q.ctype, "method": q.method, "target": q.target,
-		"body": q.body, "authorization": q.authHdr, "basic_password": q.basicPass, "cookie_token": q.cookieTok, "via": q.via, "response_code": rw.Code,
+		"body": q.body, "authorization": q.authHdr, "basic_password": q.basicPass, "cookie_token": q.cookieTok, "via": q.via, "response_code": rw.Code, "handler_panic": panicked,
 		"database_rows_by_api_token": dbRows, "tokens_created": minted,
 		"sent_to_remotes": sentDesc, "sent_to_local_railsapi": nlocal, "secret_found_in": c19LeakList(leaks), "secrets": secrets}
 	places := append([]string(nil), q.places...)
 	sort.Strings(places)
 	cs.Add(i, term, desc, len(secrets) > 0 && len(sentTerms) > 0, "stack="+kind, "stack-placements="+strings.Join(places, "+"),
-		fmt.Sprintf("stack-sent=%d", len(sentTerms)), fmt.Sprintf("stack-leak=%v", len(leaks) > 0), "stack-database="+dbTag, fmt.Sprintf("stack-created-token=%v", minted > 0))
+		fmt.Sprintf("stack-sent=%d", len(sentTerms)), fmt.Sprintf("stack-leak=%v", len(leaks) > 0), "stack-database="+dbTag, fmt.Sprintf("stack-created-token=%v", minted > 0), fmt.Sprintf("stack-handler-panic=%v", panicked != ""))
 }
